@@ -1,4 +1,5 @@
 import MahfModel.Model.Templates
+import MahfModel.Model.TemplatesEval
 open MahfModel MahfModel.Tpl Sexp
 
 def compositeNames : List String := ["Block", "Loop", "Branch", "Scope"]
@@ -30,7 +31,33 @@ def firstBadStep (steps : List StepObs) : Option StepObs :=
 
 def expectedIters (iters : Nat) : String := toString iters
 
+/-- K-only stream: the component classes the C06/C07 template analyses rely on, checked against what
+each executed component was observed to do: `(name calls evalsDelta solutionsChanged flagsChanged bestChanged)`. -/
+def auditStepOk : Sexp → Bool
+  | .list [.atom name, calls, evals, sol, flag, best] =>
+    let k := LeafKind.ofName name
+    let calls := (intOf? calls).getD 1
+    let evals := (intOf? evals).getD 1
+    let sol := (bool? sol).getD true
+    let flag := (bool? flag).getD true
+    let best := (bool? best).getD true
+    let c := eclass k
+    k != .opaque
+      && (callsObjective k || (calls == 0 && evals == 0))
+      && (!(c == .neutral || c == .update) || (!sol && !flag))
+      && (c != .eval || !sol)
+      && (c == .update || !best)
+  | _ => false
+
+def c16audit (implOut : Sexp) : Option Verdict := do
+  let out ← list? implOut
+  let steps := (out.filterMap (tagged? "steps")).headD []
+  let bad := steps.find? (fun s => !auditStepOk s)
+  pure { agree := bad.isNone, holds := true, cls := "-",
+         model := match bad with | some b => .list [.atom "class-mismatch", b] | none => .atom "classes-ok" }
+
 def c16 (input implOut : Sexp) : Option Verdict := do
+  if (tagged? "audit" input).isSome then return ← c16audit implOut
   let args ← tagged? "run" input
   let (name, iters, tree) ← match args with
     | [.atom name, _, _, it, _, tree] => (nat? it).map fun i => (name, i, tree)
